@@ -88,7 +88,8 @@ func genC15(g *Gen) {
 	}
 	// names that begin with a separator character or extend the name of a sibling namespace by a
 	// character that sorts below the separator (built without PathSep: every key is one name)
-	odd := TreeCfg{Keys: []string{".h", "a", "a-b", "/v", "a-", "a.b", "b", "-"}, MaxDepth: 3, MaxWidth: 4, PNil: 2, PEmpty: 1}
+	// (no name contains the separator "." inside: the texts of paths would be ambiguous)
+	odd := TreeCfg{Keys: []string{".h", "a", "a-b", "/v", "a-", "b", "-"}, MaxDepth: 3, MaxWidth: 4, PNil: 2, PEmpty: 1}
 	for i := 0; i < g.N/6+3; i++ {
 		ma := randMap(r, odd, 0)
 		ma["a"] = map[string]interface{}{"x": randScalar(r), ".y": randScalar(r)}
